@@ -232,10 +232,14 @@ def evaluate(case):
                         if nm not in inner_names:
                             res.fail("class-inner-changed", f"off={off}: {n.arg!r} lists {nm!r} which is not defined inside it")
         # (b) nothing named after an undocumented K-command when K is off
+        region = in_known_region(case)
         def may_show(o):
             """commands that may legitimately have an entry under this vector"""
             if o["k"] in ("attr", "member") and id(o) in hidden_members:
-                return False
+                # inside the region of the known finding P10 the leaked class stack shows documented members of hidden
+                # classes (reported by clause (c) as member-of-hidden-class-shown); their entries are theirs, not the
+                # undocumented namesake's
+                return bool(o.get("doc")) and region
             ko = flag_kind(o)
             return o.get("doc") is not None or ko is None or flags[ko]
 
